@@ -112,4 +112,121 @@ Cmp(op, l, r) ==
       [] op = "SLE" -> StrLe(l, r)
       [] op = "SGT" -> StrLt(r, l)
       [] op = "SGE" -> StrLe(r, l)
+(***************************************************************************)
+(* Additions for C24 (every FunctorOp / BinaryConstraintOp enumerator).    *)
+(* Nothing above this line is changed.  ApplyX / CmpX extend Apply / Cmp:  *)
+(*   ApplyX(op, a) = <<v>>  inside the defined domain, <<>> outside it;    *)
+(*   generators (RANGE, URANGE) return <<seq>>, the sequence in order;     *)
+(*   CmpX(op, l, r) = <<b>> with b BOOLEAN, <<>> outside the fragment.     *)
+(* Float operators live in Dyadic.tla (FApply / FCmpX).                    *)
+(* Outside the spec, stated once: ORD (exposes the interning order),       *)
+(* MATCH / NOT_MATCH beyond the literal . * fragment below (std::regex).   *)
+(***************************************************************************)
+
+\* ---- unsigned decimal text of a signed twin, digit by digit --------------
+RECURSIVE UDecAcc(_, _)
+UDecAcc(x, acc) == LET qr == UDivAcc(x, 10, 31, 0, 0)
+                       t  == Digits[qr[2] + 1] \o acc
+                   IN  IF qr[1] = 0 THEN t ELSE UDecAcc(qr[1], t)
+UDecimal(x) == UDecAcc(x, "")
+
+\* ---- to_unsigned on text: digits only, value at most 2^32-1 --------------
+RECURSIVE StripZeros(_), ParseUAcc(_, _, _)
+StripZeros(s) == IF Len(s) > 1 /\ Ch(s, 1) = "0" THEN StripZeros(SubSeq(s, 2, Len(s))) ELSE s
+AllDigits(s) == \A i \in 1..Len(s) : IsDigit(Ch(s, i))
+ParseUAcc(s, i, acc) == IF i > Len(s) THEN acc
+                        ELSE ParseUAcc(s, i + 1, AddW(MulW(acc, 10), DigitVal(Ch(s, i))))
+ParseUnsigned(s) ==
+    IF Len(s) = 0 \/ ~AllDigits(s) THEN <<>>
+    ELSE LET t == StripZeros(s) IN
+         IF Len(t) > 10 \/ (Len(t) = 10 /\ StrLt("4294967295", t)) THEN <<>>
+         ELSE <<ParseUAcc(t, 1, 0)>>
+\* to_number on text: the canonical decimal forms (ParseInt) plus the one it misses
+ParseSigned(s) == IF s = "-2147483648" THEN <<MinInt>> ELSE ParseInt(s)
+
+\* ---- exponentiation: static_cast<int>(std::pow(double, double)) ----------
+\* defined when the mathematical result is finite and, truncated, fits the type
+PowSigned(b, e) ==
+    IF b = 0 THEN (IF e = 0 THEN <<1>> ELSE IF e > 0 THEN <<0>> ELSE <<>>)
+    ELSE IF b = 1 THEN <<1>>
+    ELSE IF b = -1 THEN <<IF e % 2 = 0 THEN 1 ELSE -1>>
+    ELSE IF e < 0 THEN <<0>>                         \* |b| >= 2: 0 < |b^e| < 1 truncates to 0
+    ELSE IF e > 31 THEN <<>>
+    ELSE PowAcc(b, e, 1)
+RECURSIVE UPowAcc(_, _, _)
+UPowAcc(b, e, acc) == IF e = 0 THEN <<acc>>
+                      ELSE IF ~UMulOK(acc, b) THEN <<>> ELSE UPowAcc(b, e - 1, MulW(acc, b))
+PowUnsigned(b, e) ==
+    IF b = 0 THEN <<IF e = 0 THEN 1 ELSE 0>>
+    ELSE IF b = 1 THEN <<1>>
+    ELSE IF e < 0 \/ e > 31 THEN <<>>               \* e < 0 is an exponent >= 2^31
+    ELSE UPowAcc(b, e, 1)
+
+\* ---- range generators (EvaluatorUtil.h runRange) --------------------------
+RangeCap == 48      \* longer ranges are outside the explored domain
+RECURSIVE RangeSAcc(_, _, _, _), RangeUAcc(_, _, _, _), RangeUDown(_, _, _)
+\* signed, step # 0.  `x += step` runs once more after the last element: it must not overflow.
+RangeSAcc(x, to, step, acc) ==
+    IF (step > 0 /\ x >= to) \/ (step < 0 /\ x <= to) THEN <<acc>>
+    ELSE IF Len(acc) >= RangeCap \/ ~AddOK(x, step) THEN <<>>
+    ELSE RangeSAcc(x + step, to, step, Append(acc, x))
+RangeSigned3(a, b, s) == IF s = 0 THEN <<IF a # b THEN <<a>> ELSE <<>>>> ELSE RangeSAcc(a, b, s, <<>>)
+RangeSigned2(a, b) == RangeSAcc(a, b, IF a <= b THEN 1 ELSE -1, <<>>)
+\* unsigned: a step is never negative; stepping that wraps is outside the explored domain
+RangeUAcc(x, to, step, acc) ==
+    IF ~ULt(x, to) THEN <<acc>>
+    ELSE IF Len(acc) >= RangeCap \/ ~UAddOK(x, step) THEN <<>>
+    ELSE RangeUAcc(AddW(x, step), to, step, Append(acc, x))
+RangeUDown(x, to, acc) ==
+    IF ~ULt(to, x) THEN <<acc>>
+    ELSE IF Len(acc) >= RangeCap THEN <<>>
+    ELSE RangeUDown(SubW(x, 1), to, Append(acc, x))
+RangeUnsigned3(a, b, s) == IF s = 0 THEN <<IF a # b THEN <<a>> ELSE <<>>>> ELSE RangeUAcc(a, b, s, <<>>)
+RangeUnsigned2(a, b) == IF ULe(a, b) THEN RangeUAcc(a, b, 1, <<>>) ELSE RangeUDown(a, b, <<>>)
+
+\* ---- contains / match ------------------------------------------------------
+StrContains(pat, text) ==
+    \E i \in 1..(Len(text) - Len(pat) + 1) : SubSeq(text, i, i + Len(pat) - 1) = pat
+\* regular expressions: only  c  .  c*  .*  with c a letter or digit (the rest of std::regex is not specified)
+ReLit(c) == \E i \in 1..Len(Ascii) : Ascii[i] = c /\ (   (i >= 17 /\ i <= 26)     \* 0-9
+                                                      \/ (i >= 34 /\ i <= 59)     \* A-Z
+                                                      \/ (i >= 66 /\ i <= 91))    \* a-z
+ReFragment(p) == /\ \A i \in 1..Len(p) : ReLit(Ch(p, i)) \/ Ch(p, i) = "." \/ Ch(p, i) = "*"
+                 /\ \A i \in 1..Len(p) : Ch(p, i) = "*" => (i > 1 /\ Ch(p, i - 1) # "*")
+ReStar(p, i) == i + 1 <= Len(p) /\ Ch(p, i + 1) = "*"
+ReAtom(c, d) == c = "." \/ c = d
+RECURSIVE ReMatch(_, _, _, _)
+ReMatch(p, i, t, j) ==          \* p from position i matches exactly t from position j
+    IF i > Len(p) THEN j > Len(t)
+    ELSE IF ReStar(p, i)
+         THEN \/ ReMatch(p, i + 2, t, j)
+              \/ (j <= Len(t) /\ ReAtom(Ch(p, i), Ch(t, j)) /\ ReMatch(p, i, t, j + 1))
+         ELSE j <= Len(t) /\ ReAtom(Ch(p, i), Ch(t, j)) /\ ReMatch(p, i + 1, t, j + 1)
+
+VariadicOps == {"MAX", "MIN", "UMAX", "UMIN", "SMAX", "SMIN", "CAT"}
+RECURSIVE ApplyX(_, _)
+ApplyX(op, a) ==
+    IF op \in VariadicOps /\ Len(a) > 2                   \* left fold, as both back-ends do
+    THEN LET h == ApplyX(op, <<a[1], a[2]>>) IN ApplyX(op, <<h[1]>> \o SubSeq(a, 3, Len(a)))
+    ELSE CASE op = "EXP"  -> PowSigned(a[1], a[2])
+           [] op = "UEXP" -> PowUnsigned(a[1], a[2])
+           [] op = "U2S"  -> <<UDecimal(a[1])>>
+           [] op = "S2U"  -> ParseUnsigned(a[1])
+           [] op = "S2I"  -> ParseSigned(a[1])
+           [] op = "SSADD" -> <<a[1] \o a[2]>>
+           \* a negative index or length is outside the documented domain (std::string::substr(size_t, size_t))
+           \* (the length is clamped before Substr sees it: i + l must not overflow TLC's ints)
+           [] op = "SUBSTR" -> IF a[2] < 0 \/ a[3] < 0 THEN <<>>
+                               ELSE IF a[2] > Len(a[1]) THEN <<"">>
+                               ELSE <<Substr(a[1], a[2], IF a[3] > Len(a[1]) - a[2] THEN Len(a[1]) - a[2] ELSE a[3])>>
+           [] op = "RANGE"  -> IF Len(a) = 2 THEN RangeSigned2(a[1], a[2]) ELSE RangeSigned3(a[1], a[2], a[3])
+           [] op = "URANGE" -> IF Len(a) = 2 THEN RangeUnsigned2(a[1], a[2]) ELSE RangeUnsigned3(a[1], a[2], a[3])
+           [] OTHER -> Apply(op, a)
+
+CmpX(op, l, r) ==
+    CASE op = "CONTAINS"     -> <<StrContains(l, r)>>
+      [] op = "NOT_CONTAINS" -> <<~StrContains(l, r)>>
+      [] op = "MATCH"        -> IF ReFragment(l) THEN <<ReMatch(l, 1, r, 1)>> ELSE <<>>
+      [] op = "NOT_MATCH"    -> IF ReFragment(l) THEN <<~ReMatch(l, 1, r, 1)>> ELSE <<>>
+      [] OTHER -> <<Cmp(op, l, r)>>
 =============================================================================
